@@ -87,6 +87,9 @@ MUTANTS = [
     ('codegen.py', "    elif d == 2:\n        num = x.conjugate()", "    elif d == 2:\n        num = x.involute()", 'inverse', 'd=2,signature'),
     ('codegen.py', "    denom = (x.sp(num)).e", "    denom = (num.sp(x)).e", 'inverse', 'pass'),                        # <x num>_0 == <num x>_0
     ('codegen.py', "num = xconj * ~(x * xconj)", "num = ~(x * xconj) * xconj", 'inverse', 'pass'),                       # also a two-sided inverse
+    ('codegen.py', "def codegen_normsq(x):\n    return x * ~x", "def codegen_normsq(x):\n    return x * x", 'composegen', 'codegen_normsq on generic operands'),
+    ('codegen.py', "    return x * y * ~x\n", "    return ~x * y * x\n", 'composegen', 'codegen_sw on generic operands'),
+    ('codegen.py', "    return x * y * ~x\n", "    return x * (y * ~x)\n", 'composegen', 'pass'),                 # associativity
     # ---- harmless refactorings: must stay green (no VIOLATION); out-of-subset is acceptable (undecided), refutation is a false alarm
     ('codegen.py', "            termstr = vx * vy if sign > 0 else (- vx * vy)\n            if key_out in res:\n                res[key_out] += termstr\n            else:\n                res[key_out] = termstr",
      "            term = vx * vy if sign > 0 else (- vx * vy)\n            if key_out not in res:\n                res[key_out] = term\n            else:\n                res[key_out] = res[key_out] + term", 'codegen', 'pass'),
@@ -130,6 +133,9 @@ def build_group(H, group):
         AC.vc_new(H)
     elif group == 'tape':
         T.vc_tape_operators(H)
+    elif group == 'composegen':
+        from contracts import inverse_c as IC
+        IC.vc_compositions_generic(H, 'quick')
     elif group == 'inverse':
         from contracts import inverse_c as IC
         IC.vc_hitzer_inv(H, 'quick')
